@@ -13,6 +13,41 @@ UREC = "<instruction::unary_operation::UnaryOperation as instruction::Recreate>:
 ASSIGNS = ("instruction::bin_op::assign::exec", "instruction::bin_op::assign::try_exec")
 
 
+def returns_operand(fb):
+    """lines at which the function returns (a move of) one of its parameters"""
+    from ..model import op_local
+    t = set(range(1, fb.arg_count + 1))
+    ch = True
+    while ch:
+        ch = False
+        for blk in fb.blocks:
+            for st in blk["stmts"]:
+                if st["k"] != "assign":
+                    continue
+                d = st["place"]["l"]
+                rv = st["rv"]
+                if d in t or d == 0:
+                    continue
+                src = None
+                if rv["k"] in ("use", "cast"):
+                    src = op_local(rv["o"])
+                elif rv["k"] == "agg" and rv.get("agg") == "tuple":
+                    src = next((op_local(o) for o in rv["ops"] if op_local(o) in t), None)
+                if src in t:
+                    t.add(d)
+                    ch = True
+    hits = []
+    for blk in fb.blocks:
+        for st in blk["stmts"]:
+            if st["k"] == "assign" and st["place"]["l"] == 0:
+                rv = st["rv"]
+                if rv["k"] == "use" and op_local(rv["o"]) in t:
+                    hits.append(st.get("line"))
+                if rv["k"] == "agg" and rv.get("variant") in ("Ok", "Some") and any(op_local(o) in t for o in rv["ops"]):
+                    hits.append(st.get("line"))
+    return hits
+
+
 def arms(lib, bid, enum):
     b = lib.body(bid)
     out = {}
@@ -118,6 +153,24 @@ def run(ctx):
                     else:
                         res.ok(k2, fb.where(st.get("line")), "rebuilds %s" % (v or "the operator it was given"))
     res.stats["fold_rebuilds_checked"] = checked
+    # a fold function never answers with one of its operands unchanged: `x + 0`, `x * 1`, `x | 0` ... are not identities on
+    # every value of every admitted type (-0.0 + 0.0, arrays, the documented errors of the other operand's kind)
+    SHORT_OK = {"instruction::bin_op::logic::and::create_from_instructions": "`true && x` is x: the constant left operand decides (R-FOLDDROP checks what is dropped)",
+                "instruction::bin_op::logic::or::create_from_instructions": "`false || x` is x: the constant left operand decides (R-FOLDDROP checks what is dropped)"}
+    nshort = 0
+    for fid, fb in sorted(lib.bodies.items()):
+        if "::create_from_instruction" not in fid or "{closure" in fid:
+            continue
+        nshort += 1
+        lines = returns_operand(fb)
+        k3 = "kernel:fold-shortcut:%s" % fid
+        if lines and fid not in SHORT_OK:
+            res.bad(k3, "%s can return one of its operands unchanged (algebraic shortcut): the folded program skips the operation, so "
+                        "it differs from the executed one wherever the shortcut is not an identity (-0.0 + 0.0, array operands, error cases)"
+                    % fid, fb.where(lines[0]))
+        else:
+            res.ok(k3, fb.where(), SHORT_OK.get(fid, "every result is computed by the kernel or rebuilt as the operation"))
+    res.floor(nshort, 20, "fold_functions")
     res.floor(n, 60, "kernel_rows")
     # every BinOperator variant executed has a row
     for v in ea:
